@@ -21,6 +21,7 @@ func init() {
 			c.run("C13-R5", "MUST-PASS: each chunk goes exactly somewhere, on the right side", c13R5)
 			c.run("C13-R6", "FRESH: pumps read into a fresh buffer every iteration", c13R6)
 			c.run("C13-R7", "PAIR: every exit of the handshake worker flushes", c13R7)
+			c.run("C13-S1", "shared with C03-R2/R3: the handshake line readers consume exactly the bytes of the line they return, so the flush hands on the rest", func(c *Ctx) { c03R2(c); c03R3(c) })
 		})
 }
 
